@@ -37,6 +37,9 @@ uint64_t sim_canary_uninit_read();
 
 namespace sim {
 
+// byz.cc
+uint64_t ByzEnumTotal();
+
 const char *EntryName(int e) {
   static const char *n[E_NUM] = {"GetEncodedGeometryType",
                                  "DecodeMeshFromBuffer",
@@ -1193,6 +1196,11 @@ class Batch {
         // Two plans in five walk the stratified space in order.
         op.b = 2;
         op.a = static_cast<int64_t>((j / 5) * 2 + (j % 5) - 3);
+        // VERIF_BYZ_LAP=<n>: start the walk at lap n (lap 0 = random seam
+        // bits, lap k = one seam bit at position k-1); recorded in the plan,
+        // so a replay does not depend on the variable.
+        if (const char *lap = getenv("VERIF_BYZ_LAP"))
+          op.a += static_cast<int64_t>(strtoull(lap, nullptr, 10) * ByzEnumTotal());
       }
       p.faults.push_back(op);
       if (r.Chance(1, 6)) {
